@@ -395,7 +395,7 @@ def make_cases(tier, rnd):
         for mode in MUL_MODES:
             cases.append(dict(kind="mul", mode=mode, widths=[9, 9], host="fresh", heavy=True))
     for mode in SQ_MODES:
-        for n in range(1, (20 if thorough else 14) + 1):
+        for n in range(1, (17 if thorough else 14) + 1):
             cases.append(dict(kind="square", mode=mode, widths=[n], big_endian=bool(n % 2), host=rnd.choice(hosts) if n <= 8 else "fresh"))
             if n % 3 == 0:
                 cases.append(dict(kind="square", mode=mode, widths=[n], big_endian=bool((n + 1) % 2), gen=True))
@@ -430,7 +430,7 @@ def run(rep, tier, seed, only=None):
                      "add_mul_karatsuba / add_mul_karatsuba_with_efficient_sum (real at true widths below the thresholds; threshold-shrunk twin for the recursion)",
                      "square.add_square (twin for the split) / add_square_pow2_m1", "generate_mul / generate_square"]
     rep.bounds = {"(n,m)": "all pairs with n+m<=8 and widths<=5 + diagonal to 7x7 (quick); all <=8x8 + 9x9 per mode (thorough)",
-                  "squares": "n<=14 (quick) / <=20 (thorough)", "twins": f"guards 20->6, 18->4 ({hits[0]} literals), 48->4, [49,53]->[5] ({hits[1]} literals); widths <= 8 (mul), <= 12 (square)"}
+                  "squares": "monolithic n<=14 (quick) / <=17 (thorough); wider ones compositionally", "twins": f"guards 20->6, 18->4 ({hits[0]} literals), 48->4, [49,53]->[5] ({hits[1]} literals); widths <= 8 (mul), <= 12 (square)"}
     rep.outside = ["MulMode.ALTER above the directly decided widths (it drops carries that are zero only for magnitude reasons, which the integer conservation argument cannot see)",
                    "monolithic true-width equivalence of the recursive multipliers (out of the solver's reach; decided compositionally instead); leaves whose operand list repeats a gate (padding) fall back to 'assumed' and are counted in the evidence",
                    "widths above the listed ones"]
@@ -459,7 +459,7 @@ def run(rep, tier, seed, only=None):
         lin = [("mul", "POW2_M1", 25, 25, False), ("mul", "POW2_M1", 32, 32, True), ("mul", "POW2_M1", 40, 24, False), ("mul", "POW2_M1", 7, 33, True),
                ("mul", "WALLACE", 2, 30, False), ("mul", "WALLACE", 2, 44, True), ("mul", "WALLACE", 31, 2, False), ("mul", "WALLACE", 3, 40, False), ("mul", "WALLACE", 24, 24, True),
                ("mul", "WALLACE", 33, 5, False), ("mul", "DADDA", 24, 24, False), ("mul", "DADDA", 2, 40, True), ("mul", "DADDA", 32, 32, False), ("mul", "DADDA", 17, 40, True),
-               ("square", "POW2_M1", 25, 25, False), ("square", "POW2_M1", 32, 32, True), ("square", "POW2_M1", 40, 40, False),
+               ("square", "POW2_M1", 15, 15, True), ("square", "POW2_M1", 18, 18, False), ("square", "POW2_M1", 20, 20, True), ("square", "POW2_M1", 25, 25, False), ("square", "POW2_M1", 32, 32, True), ("square", "POW2_M1", 40, 40, False),
                ("mul", "DEFAULT", 12, 12, False), ("mul", "DEFAULT", 24, 24, True), ("mul", "DEFAULT", 32, 32, False), ("mul", "DEFAULT", 3, 40, True), ("mul", "DEFAULT", 33, 9, False)]
         if thorough:
             lin += [("mul", md, n, n, bool(n % 2)) for md in ("POW2_M1", "DADDA", "DEFAULT") for n in (16, 20, 26, 31, 33, 48, 63, 64)]
